@@ -47,6 +47,10 @@ inductive Val where
   | bool (b : Bool)
   /-- an object with `__html__` (not a `str`): `__html__()` text and `__str__()` text -/
   | obj (html : Str) (text : Str)
+  /-- any other Python object taken from the render data (dict, float, list with non-string items): only its `str()`
+      is modelled — it is used as a filter argument that the filter stringifies, as the left value of a `string_filter`,
+      or written to the output. -/
+  | other (text : Str)
   deriving Repr, DecidableEq, Inhabited
 
 inductive Err where
@@ -198,6 +202,7 @@ def recvS (P : Prims) : Val → TStr
   | .bool b => ⟨boolStr b, false⟩
   | .arr xs => ⟨P.listStr xs, false⟩
   | .obj _ t => ⟨t, false⟩
+  | .other t => ⟨t, false⟩
 
 /-- `soft_str(arg)` / `arg if isinstance(arg, str) else str(arg)` for a filter argument -/
 def argS (P : Prims) : Val → TStr
@@ -217,6 +222,7 @@ def seqOf (_P : Prims) : Val → Option (List TStr)
   | .str s => some [s]
   | .num n => some [⟨intStr n, false⟩]
   | .undef => some []
+  | .other t => some [⟨t, false⟩]     -- a dict or a non-iterable is wrapped: `val = [val]`
   | _ => none
 
 /-- `to_liquid_string(val, autoescape)` followed by the buffer write -/
@@ -228,6 +234,7 @@ def outVal (auto : Bool) : Val → Str
   | .undef => []
   | .bool b => if b then "true".toList else "false".toList
   | .obj h t => if auto then h else t
+  | .other t => if auto then escape t else t
 
 /-! ## filters -/
 
@@ -392,10 +399,12 @@ def applyFilter (P : Prims) (auto : Bool) (f : FName) (v : Val) (args : List Val
   | .first, [] =>
     (match v with
      | .arr (x :: _) => okS x
+     | .undef => .ok .undef          -- `getitem(Undefined, 0)` is the Undefined itself
      | _ => .ok .nil)
   | .last, [] =>
     (match v with
      | .arr xs => (match xs.getLast? with | some x => okS x | none => .ok .nil)
+     | .undef => .ok .undef
      | _ => .ok .nil)
   | .reverse, [] =>
     (match seqOf P v with
@@ -600,6 +609,12 @@ def cycleStep (key : List Val) (len : Nat) : List (List Val × Nat) → Nat × L
     if k = key then (i, (k, (i + 1) % (if len == 0 then 1 else len)) :: r)
     else let (j, r') := cycleStep key len r; (j, (k, i) :: r')
 
+/-- the cycle key is `str(args)`: an undefined variable prints with its name, so two different undefined names are two keys -/
+def cycleKeyVal (auto : Bool) (st : St) (a : Arg) : Val :=
+  match evalArg auto st a, a with
+  | .undef, .var n => .other n.toList
+  | v, _ => v
+
 /-- items a `for` loop visits: a string is a one-item sequence unless empty -/
 def loopItems : Val → List Val
   | .arr xs => xs.map .str
@@ -638,7 +653,7 @@ def renderNode (P : Prims) (auto : Bool) : Node → St → Except Err St
      | .error err => .error err)
   | .cycle args, st =>
     let vals := args.map (evalArg auto st)
-    let (i, cyc) := cycleStep vals vals.length st.cycles
+    let (i, cyc) := cycleStep (args.map (cycleKeyVal auto st)) vals.length st.cycles
     .ok ({ st with cycles := cyc }.write (outVal auto (vals.getD i .nil)))
   | .for_ x it body dflt, st =>
     (match evalExpr P auto st it with
